@@ -500,6 +500,9 @@ def register_numpy():
 
     @normalize_token.register(np.dtype)
     def normalize_dtype(dtype):
+        if dtype.kind == "V":
+            # dtype.str of a structured or sub-array dtype is just '|V<itemsize>'
+            return dtype.str, repr(dtype)
         return dtype.str
 
 
